@@ -16,20 +16,30 @@ import (
 )
 
 func c07Target(cfg verifh.Cfg) verifc07.Target {
+	// objs instances of each object; key n of instance i arrives as 100*i+n and is used as key string n on instance i
+	n := cfg.Int("objs", 1)
 	var (
-		sf = NewSingleFlight()
-		lc = NewLockedCalls()
-		rm = NewResourceManager()
+		sfs []SingleFlight
+		lcs []LockedCalls
+		rms []*ResourceManager
 	)
-	if sfd := cfg.Str("sfd", "-"); sfd != "-" {
-		// delayed flight entry / exit: see verifc07.SlowSF
-		rm.singleFlight = verifc07.NewSlowSF(sfd, rm.singleFlight.Do, rm.singleFlight.DoEx)
+	for i := 0; i < n; i++ {
+		sfs = append(sfs, NewSingleFlight())
+		lcs = append(lcs, NewLockedCalls())
+		rm := NewResourceManager()
+		if sfd := cfg.Str("sfd", "-"); sfd != "-" {
+			// delayed flight entry / exit: see verifc07.SlowSF
+			rm.singleFlight = verifc07.NewSlowSF(sfd, rm.singleFlight.Do, rm.singleFlight.DoEx)
+		}
+		rms = append(rms, rm)
 	}
 	mode := cfg.Str("mode", "sf")
 	return verifc07.Target{
 		Invoke: func(c *verifc07.Call, fn func() (any, error)) (v any, fresh string, err error) {
 			fresh = "-"
-			key := fmt.Sprint(c.Key())
+			key := fmt.Sprint(c.Key() % 100)
+			ob := (c.Key() / 100) % n
+			sf, lc, rm := sfs[ob], lcs[ob], rms[ob]
 			switch mode {
 			case "sf":
 				if c.Ex() {
@@ -59,8 +69,16 @@ func c07Target(cfg verifh.Cfg) verifc07.Target {
 			}
 			return
 		},
-		Inject: func(key int, res *verifc07.Res) { rm.Inject(fmt.Sprint(key), res) },
-		Close:  func() error { return rm.Close() },
+		Inject: func(key int, res *verifc07.Res) { rms[(key/100)%n].Inject(fmt.Sprint(key%100), res) },
+		Close: func() error {
+			var first error
+			for _, rm := range rms {
+				if err := rm.Close(); err != nil && first == nil {
+					first = err
+				}
+			}
+			return first
+		},
 	}
 }
 
